@@ -104,6 +104,9 @@ class C01(Prop):
                     yield {"op": "c01_static_cl", "key": key, "shape": list(sub), "offsets": list(range(prod(sub)))}
             else:
                 yield {"op": "c01_static_cl", "key": key, "shape": key, "offsets": offs}
+        # offset, shape and strides all compile-time constants (the result is computed inside the library's type resolver)
+        for key in ([7], [2, 3], [3, 2], [1, 3], [4, 5], [2, 3, 2], [3, 2, 1], [2, 1, 3, 2], [2, 3, 4]):
+            yield {"op": "c01_all_ct", "key": key, "shape": key, "offsets": list(range(prod(key)))}
         for shp in ARR_TABLE:
             for ak in ARR_FIX:
                 yield {"op": "c01_array_fix", "kind": ak, "shape": shp}
@@ -163,6 +166,18 @@ class C01(Prop):
             return "HARNESS-ERROR server: " + obs["error"]
         op = case["op"]
         shape = case["shape"]
+        if op == "c01_all_ct":
+            if obs.get("shape_seen") != shape:
+                return "static shape object reports %s, expected %s" % (obs.get("shape_seen"), shape)
+            if len(obs["unravel"]) != prod(shape):
+                return "HARNESS-ERROR all-ct enumeration has %d entries" % len(obs["unravel"])
+            for k, (idx, back, idx2, const) in enumerate(obs["unravel"]):
+                e = unravel(k, shape)
+                if idx != e or idx2 != e:
+                    return "compute_indices(ct %d, ct shape%s) = %s / with ct strides %s, expected %s" % (k, "" if idx != e else ", ct strides", idx, idx2, e)
+                if back != k:
+                    return "compute_offset(compute_indices(ct %d)) = %d" % (k, back)
+            return None
         if op.startswith("c01_index") or op.startswith("c01_static"):
             if op.startswith("c01_static") and obs.get("shape_seen") != shape:
                 return "static shape object reports %s, expected %s" % (obs.get("shape_seen"), shape)
